@@ -22,6 +22,9 @@ func (e *Engine) load(st *State, p PtrV, field string, t types.Type) AVal {
 	e.LP.Tag = "load-alias"
 	k := p.Key + "." + field
 	if c, ok := st.cells[k]; ok && c.V != nil {
+		if _, isMarker := c.V.(entryMarker); isMarker {
+			return e.fresh(st, p, field, t) // unwritten since entry: unknown, and stays marked
+		}
 		return c.V
 	}
 	if p.Arr != "" {
